@@ -209,8 +209,57 @@ def r4(ctx):
     ctx.floor(rule, n, "C07.R4.sites")
 
 
+def r5(ctx, rule="C07.R5"):
+    ctx.rule(rule, "the extension marker is recorded wherever it is recognised: in the parsers of SEQUENCE/SET, CHOICE and ENUMERATED "
+                   "every path from the consumption of the last `.` of `...` to the next loop iteration or to a success return "
+                   "assigns `extension_after` (a marker that is recorded only when additions follow turns `{ a, ... }` into a "
+                   "non-extensible type)")
+    P = ctx.program()
+    n = 0
+    for f in ("components", "choice", "enumerated"):
+        bs = [b for b in P.lib_bodies("asn1rs_model") if b.name == "try_from" and ("asn::%s::" % f) in b.path and "Peekable" in b.path
+              and b.def_kind == "AssocFn"]
+        if len(bs) != 1:
+            ctx.fail(rule, "anchor-lost:%s parser" % f, "matched %d bodies" % len(bs))
+            continue
+        b = bs[0]
+        dots = [cs for cs in b.calls() if cs.name in ("next_separator_eq_or_err", "next_if_separator_and_eq")
+                and any(a.get("k") == "const" and a.get("s") == "'.'" for a in cs.args)]
+        rec = sorted({bb for bb, j, st in b.all_statements() if st["k"] == "assign" and any(p.get("n") == "extension_after" for p in st["pl"]["p"])})
+        if not dots or not rec:
+            ctx.fail(rule, f + "#anchor-lost", "dot consumption (%d) / extension_after assignment (%d) not found" % (len(dots), len(rec)),
+                     "%s:%d" % (b.file, b.line))
+            continue
+        n += 1
+        last = max(dots, key=lambda c: len(b.dom.get(c.bb, ())))
+        # success continuation of the `?` on the last dot: follow the Continue edge = blocks dominated by the call's target that
+        # are not error-only
+        okr = F.ok_reaching(b)
+        start = last.target
+        # blocks reachable from the consumption without passing a recording block
+        free = b.reach_from(start, avoid=rec)
+        # a "success continuation" is reaching another token-consuming call of the loop (the next item) or an Ok return
+        leaks = []
+        for bb in sorted(free):
+            t = b.blocks[bb]["term"]
+            for st in b.blocks[bb]["stmts"]:
+                if st["k"] == "assign" and st["pl"]["l"] == 0 and not st["pl"]["p"] and st["rv"]["k"] == "agg" and st["rv"].get("variant") == "Ok":
+                    leaks.append(("Ok return", span_loc(st["sp"])))
+            if t and t["k"] == "call" and t["func"].get("fn") and t["func"]["fn"]["name"] in (
+                    "next_text_or_err", "next_if_separator_and_eq", "read_role_given_text", "next_with_opt_tag", "push"):
+                leaks.append((t["func"]["fn"]["name"], span_loc(t["sp"])))
+        detail = {"parser": b.path[:90], "last_dot_consumed_at": last.loc(), "marker_recorded_in_blocks": rec, "unrecorded_continuations": leaks[:4]}
+        if leaks:
+            ctx.fail(rule, f + "#marker-recorded", "after `...` is consumed the parser can go on (%s at %s) without having recorded the "
+                                                   "marker" % leaks[0], leaks[0][1], detail)
+        else:
+            ctx.ok(rule, f + "#marker-recorded", detail)
+    ctx.floor(rule, n, "C07.R5.parsers")
+
+
 def run(ctx):
     r1(ctx)
     r2(ctx)
     r3(ctx)
     r4(ctx)
+    r5(ctx)
